@@ -430,7 +430,7 @@ def enumerate_cases(tier):
     for o, kind in (('sol:chk:fail', 'chkfail'), ('sol:chk:fail sol:chk:mode=1023', 'chkfail'), ('sol:chk:mode=1023', 'ok')):
         C.append(mkcase('option/env/chkfail/' + o, 'option:' + o + ':violating-solution', kind, nl=oknl, env_opts=o))
     C.append(mkcase('option/env/chkfail/feasible-point', 'option:sol:chk:fail=1:feasible-solution', 'ok', nl=oknl, env_opts='sol:chk:fail',
-                    script={'x': '0,0,0', 'obj': '0'}))
+                    script={'x': 'pad:0,0,0', 'obj': '0'}))
     C.append(mkcase('option/mp_options/bad', 'option:unknown-name(mp_options)', 'badopt', nl=oknl, extra_env={'mp_options': 'foo=1'},
                     expect={'msg': 'foo'}))
     C.append(mkcase('option/mp_options/valid', 'option:valid(mp_options)', 'ok', nl=oknl, extra_env={'mp_options': 'timing=1'}))
@@ -495,7 +495,7 @@ def enumerate_cases(tier):
                         C.append(mkcase('answer/code=%d,x=%s,y=%s,obj=%s,mip=%s' % (code, xs, ys, ob, ismip),
                                         'answer:code=%d:x=%s,y=%s,obj=%s' % (code, xs, ys, ob), 'ok', nl=OKM2.nl(),
                                         script={'code': code, 'x': xs, 'y': ys, 'obj': ob, 'ismip': ismip, 'msg': 'scripted %d' % code}))
-    for k, v in (('x', '1,2'), ('x', '1,2,3,4,5,6,7,8,9,10,11,12,13,14,15,16,17,18,19,20'), ('y', '1'), ('obj', '1,2,3'), ('msg', ''),
+    for k, v in (('msg', ''),
                  ('msg', 'line1\\n\\nline3'), ('msg', 'x' * 3000), ('basis', '1'), ('iis', '1')):
         C.append(mkcase('answer/odd/%s=%s' % (k, v[:12]), 'answer:odd:%s=%s' % (k, v[:12]), 'answer_odd', nl=OKM2.nl(),
                         script={k: v}, env_opts='alg:iisfind=1' if k == 'iis' else None))
@@ -686,8 +686,11 @@ def judge(c, r, fault_k=None):
         bad('C09 %s %s' % (sn, sig_label(c)))
         return 'signal:' + sn, P
     if SAN_RX.search(r['err']):
-        mt = re.search(r'(AddressSanitizer: [a-z-]+|runtime error: [^\n]{0,60})', r['err'])
-        bad('C09 sanitizer report (%s) %s' % (mt.group(1) if mt else 'unknown', sig_label(c)))
+        mt = re.search(r'(AddressSanitizer: [A-Za-z-]+|runtime error: [^\n]{0,60})', r['err'])
+        kind = re.sub(r'0x[0-9a-f]+', 'ADDR', mt.group(1)) if mt else 'unknown'
+        where = re.search(r'(/repo|/tmp/wt-[^/]*)/((?:include|src)/[^\s:]+:\d+)', r['err'])
+        bad('C09 sanitizer report (%s at %s): %s' % (kind, where.group(2) if where else '?', c.get('siglabel') or c['cls'].split(':')[0]),
+            report=r['err'][:1500])
         return 'sanitizer', P
     want = wants_sol(c)
     hd = header_dims(r['nl']) if r['nl'] is not None else None
@@ -1017,7 +1020,7 @@ def selftest(chk):
 
 
 def main(tier, seed):
-    chk = vcheck.Check(PID, tier, 'model_checking', seed)
+    chk = vcheck.Check(PID, tier, 'exploration', seed)
     t0 = time.time()
     variants = ('plain', 'san') if tier == 'thorough' else ('plain',)
     bins = build(variants)
@@ -1069,6 +1072,16 @@ ASSUMPTIONS = [
     'child limits: stack 8 MiB, address space 6 GiB (plain build), core 0; horizon 20 s, re-run alone with 120 s',
     'a .sol path that is a symlink to /dev/full or a directory counts as "no file can be written"',
     'environment options are given through vdriver_options (executable-name variable) and mp_options',
+    'an NL header with 0 AMPL options makes mp write the keyword "Options" without a count; that .sol format question belongs to C05 '
+    'and is not judged here (the reference parser is given the count)',
+    'the scripted solver obeys the backend contract (primal vector of the delivered model\'s length or absent); codes {0,100,200,300,400,500,999}',
+    'which option strings are invalid: unknown names, ill-typed values, a flag given a value, objno outside 0..n_obj, unreadable option file '
+    'must be diagnosed; out-of-declared-range numbers, an empty value and an unterminated quote may also be accepted, because solver-opt.h '
+    'documents declared ranges as unused and the parser is lenient there (C11 judges the parser itself)',
+    'sanitizer build (thorough): ASan+UBSan without the vptr check (mp\'s CRTP constructors downcast `this` before the implementation '
+    'class is constructed; that pattern is outside this property); operator shapes and byte-offset faults run on the production-like build only',
+    'no .sol although requested is accepted only when the .nl cannot be opened or the stderr diagnostic locates the error in the NL header '
+    '(lines 1-10, before any dimension is known); otherwise the failure has to be reported in the .sol',
 ]
 
 
